@@ -94,4 +94,10 @@ def run_rule(run, rule_id="F-SNAPSHOT"):
         run.ob(ok, f"{cname}.__enter__", file=m.rel, line=save.lineno, detail=tgt, expected=f"a copy of {tgt} ({why})", found=src(save.value)[:80])
     if n < 2:
         raise AnalysisError(f"{rule_id}: save/restore pairs not recognised ({n})")
+    # positive control: a by-reference save must not count as a copy
+    e = ast.parse("G.scope").body[0].value
+    c = ast.parse("list(G.scope)").body[0].value
+    if _is_copy_of(e, "G.scope") or not _is_copy_of(c, "G.scope"):
+        raise AnalysisError(f"{rule_id}: positive control failed")
+    run.note("positive control: `self.s = G.scope` is a reference, `list(G.scope)` a copy")
     run.end()
